@@ -1,22 +1,17 @@
 (* C13 - assembly output is a pure function of its inputs.  Statements only.
    Model: Model/AsmCache.v (global state of the assembler process: stl-prefix cache, parser globals, interpreter
    recursion limit; lexing/parsing, expansion and writing are arbitrary pure functions of what the code hands them,
-   the parse additionally of the recursion limit in force).  `history_free_statement sh` is the property in full:
-   for every history of assemble calls and every probe, the result of the probe after the history equals its result
-   in a fresh process - under the two stated assumptions `content_identified` ((resolved path, mtime_ns, size)
-   identifies a file's content) and `spelling_identified` (an stl file is always passed under one spelling). *)
+   the parse additionally of the recursion limit in force).  `history_free_statement sh` (Model/AsmCache.v) is the
+   property in full: for all opaque functions, every history of assemble calls and every probe,
+
+       snd (assemble_step sh (run_history sh (init_g L0) history) probe) = snd (assemble_step sh (init_g L0) probe)
+
+   under the two stated assumptions `content_identified` ((resolved path, mtime_ns, size) identifies a file's content)
+   and `spelling_identified` (an stl file is always passed under one spelling). *)
 From FJ Require Import Lib.Base Model.AsmCache Proofs.AsmCacheProps.
 From Coq Require Import String.
 
-(* The full statement is FALSE on the current tree (finding F13: sys.setrecursionlimit is set per assembly, after
-   parsing, and never restored).  Witness, evaluated on the model: assemble(";0;0", max_recursion_depth=60) followed
-   by a default-depth assembly of a macro definition whose parse needs more than 160 frames. *)
-Theorem C13_history_free_refuted : ~ history_free_statement code_shape.
-Proof. exact history_free_refuted. Qed.
-Print Assumptions C13_history_free_refuted.
-
-(* The same statement under the guard `limit_restored`: the limit a fresh process starts with is in force again
-   after every call of the history. *)
+(* The result of an assembly does not depend on what the process assembled before. *)
 Theorem C13_history_free :
   forall (text diag consts macros mainops opts output : Type)
          (init_consts : Z -> consts) (init_macros : string -> string -> macros) (init_main : mainops)
@@ -28,59 +23,53 @@ Theorem C13_history_free :
     content_identified U -> spelling_identified U ->
     forall (L0 : Z) (history : list (request text diag opts)) (probe : request text diag opts),
       Forall U history -> U probe ->
-      limit_restored init_consts init_macros init_main parse_file final_validate backend code_shape
-                     (init_g L0) history = true ->
       snd (assemble_step init_consts init_macros init_main parse_file final_validate backend code_shape
              (run_history init_consts init_macros init_main parse_file final_validate backend code_shape
                           (init_g L0) history) probe)
       = snd (assemble_step init_consts init_macros init_main parse_file final_validate backend code_shape
                            (init_g L0) probe).
-Proof. exact history_free_guarded_code. Qed.
+Proof. exact history_free_code. Qed.
 Print Assumptions C13_history_free.
 
-(* The guard holds whenever no earlier call asked for a non-default max_recursion_depth (900 + 100 = 1000 = the
-   limit of a fresh CPython process). *)
-Theorem C13_default_depth_restores_limit :
+(* assemble leaves the interpreter's recursion limit as it found it - whatever the call does (success, parse
+   error, failure in a later stage) *)
+Theorem C13_recursion_limit_preserved :
   forall (text diag consts macros mainops opts output : Type)
          (init_consts : Z -> consts) (init_macros : string -> string -> macros) (init_main : mainops)
          (parse_file : Z -> bool -> list string -> pstate consts macros mainops -> string -> string -> text
                        -> parse_out diag consts macros mainops)
          (final_validate : pstate consts macros mainops -> list diag)
          (backend : Z -> Z -> Z -> opts -> pstate consts macros mainops -> output + diag)
-         (history : list (request text diag opts)),
-    forallb (fun rq => Z.eqb (rq_depth rq) DEFAULT_DEPTH) history = true ->
-    limit_restored init_consts init_macros init_main parse_file final_validate backend code_shape
-                   (init_g FRESH_LIMIT) history = true.
-Proof. exact default_depth_restores_limit. Qed.
-Print Assumptions C13_default_depth_restores_limit.
-
-(* With the limit put back when assemble returns or raises (the proposed fix) the full statement holds. *)
-Theorem C13_history_free_fixed : history_free_statement fixed_shape.
-Proof. exact history_free_fixed. Qed.
-Print Assumptions C13_history_free_fixed.
+         (g : gstate text diag consts macros mainops) (rq : request text diag opts),
+    g_limit (fst (assemble_step init_consts init_macros init_main parse_file final_validate backend code_shape g rq))
+    = g_limit g.
+Proof. exact limit_preserved_code. Qed.
+Print Assumptions C13_recursion_limit_preserved.
 
 (* The structural facts read from the source are all needed: dropping the width, the warning mode or (mtime, size)
    from the key, sharing the main macro's op list on restore, sharing the macro dictionary on snapshot, not resetting
-   curr_namespace per file or error_occurred per call - each makes the statement false (even with the limit restored). *)
+   curr_namespace per file or error_occurred per call, not restoring the recursion limit (the tree before commit
+   fe7c037, finding F13; witness: assemble(";0;0", max_recursion_depth=60) then a default-depth assembly of a macro
+   definition whose parse needs more than 160 frames) - each makes the statement false. *)
 Theorem C13_structure_is_needed :
   ~ history_free_statement Variants.no_width_key /\ ~ history_free_statement Variants.no_werror_key /\
   ~ history_free_statement Variants.no_mtime_size_key /\ ~ history_free_statement Variants.shared_main_ops /\
   ~ history_free_statement Variants.shared_macros_snapshot /\ ~ history_free_statement Variants.ns_not_reset /\
-  ~ history_free_statement Variants.err_not_reset.
+  ~ history_free_statement Variants.err_not_reset /\ ~ history_free_statement Variants.limit_not_restored.
 Proof.
   exact (conj variant_no_width_refuted (conj variant_no_werror_refuted (conj variant_no_mtime_size_refuted
         (conj variant_shared_main_ops_refuted (conj variant_shared_macros_snapshot_refuted
-        (conj variant_ns_not_reset_refuted variant_err_not_reset_refuted)))))).
+        (conj variant_ns_not_reset_refuted (conj variant_err_not_reset_refuted
+         variant_limit_not_restored_refuted))))))).
 Qed.
 Print Assumptions C13_structure_is_needed.
 
-(* Non-vacuity: a history (warm cache, another width, a failing input that leaves a namespace open) that meets the
-   guard, after which the probe is served from the cache; and the F13 witness does not meet the guard. *)
-Example C13_guard_is_satisfiable :
-  limit_restored Replay.r_init_consts Replay.r_init_macros [] Replay.r_parse_file (fun _ => []) Replay.r_backend
-                 code_shape Replay.g0 Example.history = true.
-Proof. exact example_guard_holds. Qed.
-Example C13_guard_excludes_the_witness :
-  limit_restored Replay.r_init_consts Replay.r_init_macros [] Replay.r_parse_file (fun _ => []) Replay.r_backend
-                 code_shape Replay.g0 Witness.history = false.
-Proof. exact witness_guard_false. Qed.
+(* Non-vacuity: a history (warm cache, another width, a failing input that leaves a namespace open) after which the
+   probe is served from a cache that holds two entries, and assembles. *)
+Example C13_nontrivial_history :
+  List.length (g_cache (run_history Replay.r_init_consts Replay.r_init_macros [] Replay.r_parse_file
+                                    Replay.r_final_validate Replay.r_backend code_shape Replay.g0 Example.history)) = 2%nat
+  /\ Replay.class_of (snd (Replay.step code_shape
+         (run_history Replay.r_init_consts Replay.r_init_macros [] Replay.r_parse_file Replay.r_final_validate
+                      Replay.r_backend code_shape Replay.g0 Example.history) Example.probe)) = 0%Z.
+Proof. exact example_probe_hits_cache. Qed.
